@@ -89,7 +89,10 @@ int cfg_generate(const char *tracedir) { (void) tracedir; return 0; }    /* pv/c
 #undef pvt_name
 #undef chan_fmt
 #include "loom.h"
-int64_t loom_get_gindex(struct loom *loom) { return loom->gindex; }      /* loom.c, outside C13 */
+int64_t loom_get_gindex(struct loom *loom) { return loom->gindex; }      /* loom.c, proc.c: outside C13 */
+void loom_set_gindex(struct loom *loom, int64_t gindex) { loom->gindex = gindex; }
+#include "proc.h"
+void proc_set_gindex(struct proc *proc, int64_t gindex) { proc->gindex = gindex; }
 #ifndef REPLAY_NO_SYSTEM
 #include "system.c"
 #endif
@@ -245,33 +248,53 @@ static const char *session(int nt, int nc, unsigned virt_mask, int via_system)
 {
 	const char *why;
 	snprintf(r_ctx, sizeof(r_ctx), "%d threads, %d CPUs (virtual mask 0x%x); %s; every thread through every state and CPU; recorder_finish", nt, nc, virt_mask,
-		via_system ? "system_connect" : "recorder_add_pvt + thread_connect/cpu_connect + *_create_pcf_types + cpu_add_to_pcf_type by hand");
+		via_system ? "init_global_indices + system_connect" : "recorder_add_pvt + thread_connect/cpu_connect + *_create_pcf_types + cpu_add_to_pcf_type by hand");
 	/* fresh output directory */
 	mkdir(R_DIR, 0755);
 	static const char *files[] = { "thread.prv", "thread.pcf", "thread.row", "cpu.prv", "cpu.pcf", "cpu.row" };
 	for (int i = 0; i < 6; i++) { char p[128]; snprintf(p, sizeof(p), R_DIR "/%s", files[i]); remove(p); }
 	n_err = 0; r_clock = 0;
-	memset(&r_sys, 0, sizeof(r_sys)); memset(&r_loom, 0, sizeof(r_loom)); r_loom.gindex = 0;
+	memset(&r_sys, 0, sizeof(r_sys)); memset(&r_loom, 0, sizeof(r_loom));
 	bay_init(&r_bay);
 	if (recorder_init(&r_rec, R_DIR) != 0) FAILF("recorder_init refused");
 	for (int k = 0; k < nt; k++) {
 		struct thread *th = r_th[k] = calloc(1, sizeof(struct thread));
-		memset(&r_proc[k], 0, sizeof(r_proc[k])); r_proc[k].appid = 1 + k / 2; r_proc[k].pid = 500 + k;
+		memset(&r_proc[k], 0, sizeof(r_proc[k])); r_proc[k].appid = 1 + k / 2; r_proc[k].pid = 500 + k; r_proc[k].gindex = -1;
+		if (k > 0) r_proc[k - 1].gnext = &r_proc[k];
 		if (thread_init_begin(th, 1000 + 7 * k) != 0) FAILF("thread_init_begin refused");
-		thread_set_gindex(th, k); thread_set_proc(th, &r_proc[k]);
+		thread_set_proc(th, &r_proc[k]);
 		th->meta = (JSON_Object *) &r_proc[k];     /* any non-NULL metadata handle (never dereferenced here) */
-		if (thread_init_end(th) != 0) FAILF("thread_init_end refused");
 		if (k > 0) r_th[k - 1]->gnext = th;
 	}
 	for (int k = 0; k < nc; k++) {
 		struct cpu *cpu = r_cpu[k] = calloc(1, sizeof(struct cpu));
 		cpu_init_begin(cpu, k, 4 + 5 * k, (virt_mask >> k) & 1);
-		cpu_set_gindex(cpu, k); cpu_set_loom(cpu, &r_loom);
-		if (cpu_init_end(cpu) != 0) FAILF("cpu_init_end refused");
+		cpu_set_loom(cpu, &r_loom);
 		if (k > 0) r_cpu[k - 1]->next = cpu;
 	}
 	r_sys.threads = nt ? r_th[0] : NULL; r_sys.cpus = nc ? r_cpu[0] : NULL;
-	r_sys.nthreads = (size_t) nt; r_sys.ncpus = (size_t) nc;
+	r_sys.procs = nt ? &r_proc[0] : NULL; r_sys.looms = &r_loom; r_loom.gindex = -1;
+#ifndef REPLAY_NO_SYSTEM
+	if (via_system) {
+		/* global indices and totals: the k-th element of each global list gets index k, the totals are the list lengths */
+		r_sys.nthreads = 77; r_sys.ncpus = 77; r_sys.nprocs = 77; r_sys.nphycpus = 77;
+		init_global_indices(&r_sys);
+		int nphy = 0; for (int k = 0; k < nc; k++) nphy += !((virt_mask >> k) & 1);
+		if (r_sys.nthreads != (size_t) nt || r_sys.ncpus != (size_t) nc || r_sys.nprocs != (size_t) nt || r_sys.nphycpus != (size_t) nphy)
+			FAILF("init_global_indices declares %zu threads, %zu CPUs (%zu physical), %zu processes; the lists hold %d, %d (%d), %d", r_sys.nthreads, r_sys.ncpus, r_sys.nphycpus, r_sys.nprocs, nt, nc, nphy, nt);
+		for (int k = 0; k < nt; k++) if (r_th[k]->gindex != k || r_proc[k].gindex != k) FAILF("init_global_indices gave the %d-th thread / process of the global lists index %lld / %lld", k, (long long) r_th[k]->gindex, (long long) r_proc[k].gindex);
+		for (int k = 0; k < nc; k++) if (r_cpu[k]->gindex != k) FAILF("init_global_indices gave the %d-th CPU of the global list index %lld", k, (long long) r_cpu[k]->gindex);
+		if (r_loom.gindex != 0) FAILF("init_global_indices gave the only loom index %lld", (long long) r_loom.gindex);
+	} else
+#endif
+	{
+		for (int k = 0; k < nt; k++) thread_set_gindex(r_th[k], k);
+		for (int k = 0; k < nc; k++) cpu_set_gindex(r_cpu[k], k);
+		r_loom.gindex = 0;
+		r_sys.nthreads = (size_t) nt; r_sys.ncpus = (size_t) nc;
+	}
+	for (int k = 0; k < nt; k++) if (thread_init_end(r_th[k]) != 0) FAILF("thread_init_end refused");
+	for (int k = 0; k < nc; k++) if (cpu_init_end(r_cpu[k]) != 0) FAILF("cpu_init_end refused");
 	if (via_system) {
 #ifndef REPLAY_NO_SYSTEM
 		int r = system_connect(&r_sys, &r_bay, &r_rec);
@@ -385,7 +408,10 @@ int main(void)
 {
 	int nt = (int) (W_NT), nc = (int) (W_NC);
 	if (nt < 0) nt = 0; if (nt > 3) nt = 3; if (nc < 0) nc = 0; if (nc > 3) nc = 3;
-	int modes[2] = { 1, 0 }, nm = 2;
+	int modes[2] = { 1, 0 }, nm = 2;     /* the whole system through system.c first, then connected by hand */
+#ifdef REPLAY_HAND_FIRST
+	modes[0] = 0; modes[1] = 1;          /* drivers of the thread.c / cpu.c groups: by hand first */
+#endif
 #ifdef REPLAY_NO_SYSTEM
 	modes[0] = 0; nm = 1;
 #endif
